@@ -55,6 +55,13 @@ def main(tier):
         else:
             run.cov["traces_validated_against_impl"] += info.get("events", 0)
             run.cov["evaluations"] += info["delivered"] + info["gave_up"]
+        # ---- the Login state machine (ASExchange.tla): pre-authentication negotiation, client referrals, errors; scripted KDCs
+        ainfo, aproblems = sysk5.run_as(run, quick=not run.thorough)
+        run.extra["system_spec_as"] = ainfo
+        for text, facts, rnd in aproblems:
+            run.violation(facts, {"problem": text, "events": rnd})
+        run.cov["traces_validated_against_impl"] += ainfo["clients"] - len(aproblems)
+        run.cov["evaluations"] += ainfo["logins"]
         run.assumptions += ["'any RFC 4120-conformant KDC' is approximated by the legal variants of one simulated KDC",
                             "Kerberos times have 1 s resolution: validity is ambiguous within 1 s of a ticket's end and accepted either way",
                             "a referral chain of exactly the bound + 1 (7) may succeed or fail; DNS discovery is not modelled"]
